@@ -17,8 +17,13 @@ class Eraser(ast.NodeTransformer):
     """drops docstring statements, parameter / return / variable annotations and type comments — nothing else"""
 
     def _body(self, node):
-        if node.body and is_docstring_stmt(node.body[0]):
-            node.body = node.body[1:]
+        # Which string statement *is* the docstring depends on position alone: when a conversion deletes an (empty)
+        # docstring that is followed by another string statement, that one becomes the docstring. The whole leading run of
+        # string statements is therefore erased here; `leading_string_runs` bounds how it may change.
+        k = 0
+        while k < len(node.body) and is_docstring_stmt(node.body[k]):
+            k += 1
+        node.body = node.body[k:]
         return node
 
     def visit_Module(self, node):
@@ -84,11 +89,42 @@ def first_difference(a, b, path="module"):
     return None
 
 
+def leading_string_runs(tree):
+    """{path of the definition: length of the run of string statements its body starts with}"""
+    out = {}
+
+    def walk(node, path):
+        body = getattr(node, "body", None)
+        if isinstance(node, (ast.Module,) + DEFS) and isinstance(body, list):
+            k = 0
+            while k < len(body) and is_docstring_stmt(body[k]):
+                k += 1
+            out[path] = k
+        seen = {}
+        for child in ast.iter_child_nodes(node):
+            if isinstance(child, DEFS):
+                n = seen[child.name] = seen.get(child.name, 0) + 1
+                walk(child, path + ("%s#%d" % (child.name, n),))
+            else:
+                walk(child, path)
+
+    walk(tree, ())
+    return out
+
+
 def erased_difference(before_tree, after_tree):
     a, b = Eraser().visit(deepcopy(before_tree)), Eraser().visit(deepcopy(after_tree))
-    if ast.dump(a) == ast.dump(b):
-        return None
-    return first_difference(a, b) or "dumps differ"
+    if ast.dump(a) != ast.dump(b):
+        return first_difference(a, b) or "dumps differ"
+    # a conversion may rewrite, add (to a definition that had none) or delete a docstring; it never adds a further string
+    # statement: the leading run of string statements of a body grows to at most max(its old length, 1)
+    rb, ra = leading_string_runs(before_tree), leading_string_runs(after_tree)
+    for path, n_after in ra.items():
+        n_before = rb.get(path, 0)
+        if n_after > max(n_before, 1):
+            return "module/%s.body: %d leading string statements != %d (a string statement was added)" % (
+                "/".join(path) or "Module", n_after, n_before)
+    return None
 
 
 def comments(src, keep_type_comments=False):
@@ -146,13 +182,15 @@ def _subsequence_misses(needles, hay):
 
 
 def line_identity_violations(before, after, before_tree, after_tree=None):
-    """Every non-blank line of `before` outside definition headers / docstrings / annotated assignments must
+    """Every non-empty line of `before` outside definition headers / docstrings / annotated assignments must
     survive byte-identical and in order (a subsequence of `after`); symmetrically, `after` must not contain
     new non-blank lines outside such spans. Independent of any diff alignment."""
     bl, al = before.splitlines(True), after.splitlines(True)
     mut_b, _ = mutable_lines(before_tree, bl)
     out = []
-    keep = [(i + 1, l) for i, l in enumerate(bl) if (i + 1) not in mut_b and l.strip()]
+    # (empty lines may come and go around rewritten docstrings; a blank line that carries white space is a line like any
+    # other and must survive byte for byte)
+    keep = [(i + 1, l) for i, l in enumerate(bl) if (i + 1) not in mut_b and l.rstrip("\r\n")]
     # a line that lost only its trailing newline at EOF is still the same line
     al_n = [l if l.endswith("\n") else l + "\n" for l in al]
     miss = _subsequence_misses([(ln, l if l.endswith("\n") else l + "\n") for ln, l in keep], al_n)
@@ -160,7 +198,8 @@ def line_identity_violations(before, after, before_tree, after_tree=None):
         out.append({"kind": "replace", "before_lines": [ln for ln, _ in miss[:5]], "text": [t for _, t in miss[:3]]})
     if after_tree is not None:
         mut_a, _ = mutable_lines(after_tree, al)
-        new = [(i + 1, l if l.endswith("\n") else l + "\n") for i, l in enumerate(al) if (i + 1) not in mut_a and l.strip()]
+        new = [(i + 1, l if l.endswith("\n") else l + "\n") for i, l in enumerate(al) if (i + 1) not in mut_a
+               and l.rstrip("\r\n")]
         bl_n = [l if l.endswith("\n") else l + "\n" for l in bl]
         extra = _subsequence_misses(new, bl_n)
         if extra:
